@@ -515,7 +515,7 @@ func ruleTruncatePreservesContent(rule string) func(*Ctx) {
 	}
 }
 
-// ruleNoSQLReplaceByParameter: `replace(col, ?, '')` removes EVERY occurrence of the bound string, not a prefix: used
+// ruleNoSQLReplaceByParameter: `replace(col, ?, ”)` removes EVERY occurrence of the bound string, not a prefix: used
 // to strip the parent path in the direct-children listing it also eats a later path component that repeats the
 // parent's (`/a/b/a/c` under `/a` loses two components and is listed as a direct child). Positional stripping
 // (`substr(col, length(?) + 1)`) is the only form accepted.
